@@ -1,7 +1,7 @@
 """C01 - assess is the joint log density; simulate samples exactly from it."""
 import numpy as np
 
-from harness import env, gfi, modelir, refmodel, stats
+from harness import env, gfi, lawtest, modelir, refmodel, stats
 from harness.engine import ImplError, drive, impl
 from harness.plans import plan
 
@@ -127,132 +127,21 @@ def classify(case, ctx=None, n1=600):
 
 def law(case, gf, ref, rargs, rkw, jargs, jkw, F, info, ctx, n1):
     import jax
+    from genjax import seed
 
-    fails = []
-    prog = case["prog"]
-    discrete = all(s[2] in refmodel.DISCRETE for fn in prog["fns"].values() for s in fn["body"] if s[0] in ("draw", "vdist"))
-    enum = ref.enumerate(rargs, rkw, limit=2048) if discrete else None
-    info["law"] = "exact-pmf" if enum else "pit"
+    def one(k):
+        tr = seed(gf.simulate)(k, *jargs, **jkw)
+        return tr.get_choices(), tr.get_score(), tr.get_retval()
 
-    class _C:
-        stat_tests = 0
-        stat_stage2 = 0
-
-    c = ctx if ctx is not None else _C()
+    bs = jax.jit(jax.vmap(one))
 
     def draw(n, stage):
         keys = jax.random.split(env.key(case["key"], 10 + stage), n)
-        ch, sc, rv = impl(batch_simulate, gf, jargs, jkw, keys)
-        return gfi.to_np(ch), np.asarray(sc), np.asarray(rv)
+        ch, sc, rv = impl(bs, keys)
+        return gfi.to_np(ch), np.asarray(sc), np.asarray(rv), None
 
-    if enum:
-        pmf = {k: lp for (_, lp, _, k) in enum}
-        rets = {k: rv for (_, _, rv, k) in enum}
-        keys_sorted = sorted(pmf)
-        probs = np.exp([pmf[k] for k in keys_sorted])
-        det = {}
-
-        def pfun(n, stage):
-            ch, sc, rv = draw(n, stage)
-            counts = {k: 0 for k in keys_sorted}
-            for i in range(n):
-                k = refmodel.outcome_key(lane(ch, i))
-                if k not in pmf:
-                    det["outside"] = (k, float(sc[i]))
-                    return 0.0, {"outcome_outside_support": str(k)}
-                counts[k] += 1
-                if "score" not in det and not gfi.close(sc[i], -pmf[k], abs(pmf[k]) * 3):
-                    det["score"] = (k, float(sc[i]), -pmf[k])
-                if "ret" not in det and not gfi.retclose(rv[i], rets[k]):
-                    det["ret"] = (k, np.asarray(rv[i]).tolist(), np.asarray(rets[k]).tolist())
-            return stats.chi2_p([counts[k] for k in keys_sorted], probs)
-
-        res = stats.two_stage(c, pfun, n1 * 4)
-        if "outside" in det:
-            fails.append((f"law.outcome_outside_support|{F}", f"simulate produced outcome {det['outside'][0]} which has reference probability 0"))
-        elif res:
-            fails.append((f"law.pmf|{F}", f"outcome frequencies differ from the exact enumerated pmf ({len(pmf)} outcomes): {res}"))
-        if "score" in det:
-            fails.append((f"law.score_per_outcome|{F}", f"outcome {det['score'][0]}: trace score {det['score'][1]} != -log pmf {det['score'][2]}"))
-        if "ret" in det:
-            fails.append((f"law.retval_per_outcome|{F}", f"outcome {det['ret'][0]}: retval {det['ret'][1]} != reference {det['ret'][2]}"))
-        info["support"] = len(pmf)
-        return fails
-
-    # continuous / mixed: Rosenblatt transform through the reference conditional priors
-    rng = np.random.default_rng(case["key"] + 77)
-    cache = {}
-
-    def pits(n, stage):
-        if stage in cache:
-            return cache[stage]
-        ch, sc, rv = draw(n, stage)
-        cols, bad_score, equal_pairs = {}, None, None
-        for i in range(n):
-            chi = lane(ch, i)
-            us = {}
-
-            def site(path, idx, dist, ps):
-                g = np.asarray(refmodel.cget(chi, path))
-                v = g[idx] if idx else g
-                lp = refmodel.logpdf(dist, v, ps)
-                acc[0] += lp
-                acc[1] += abs(lp)
-                for j, u in enumerate(rpit(dist, v, ps, rng)):
-                    us[(path, idx, j)] = u
-                return v
-
-            acc = [0.0, 0.0]
-            try:
-                ret = ref.run(prog["main"], rargs, rkw, site)
-            except Exception as e:  # noqa: BLE001
-                cache[stage] = ("shape", f"{type(e).__name__}: {e}")
-                return cache[stage]
-            if bad_score is None and not gfi.close(sc[i], -acc[0], acc[1]):
-                bad_score = (i, float(sc[i]), -acc[0], gfi._short(chi))
-            if bad_score is None and not gfi.retclose(rv[i], ret):
-                bad_score = (i, "retval", np.asarray(rv[i]).tolist(), np.asarray(ret).tolist())
-            for k, u in us.items():
-                cols.setdefault(k, []).append(u)
-        cache[stage] = ("ok", cols, bad_score, n)
-        return cache[stage]
-
-    first = pits(n1, 1)
-    if first[0] == "shape":
-        return [(f"law.choice_shape|{F}", first[1])]
-    _, cols, bad_score, n = first
-    if bad_score:
-        fails.append((f"law.batch_score_or_retval|{F}", f"vmapped trace #{bad_score[0]}: {bad_score[1:]}"))
-    full = {k: v for k, v in cols.items() if len(v) == n}  # positions present in every trace (control flow may vary)
-    info["pit_positions"] = len(full)
-    # marginals
-    for k in sorted(full, key=str):
-        def pfun(nn, stage, k=k):
-            r = pits(nn, stage)
-            col = r[1].get(k, [])
-            return stats.ks_uniform_p(col), {"pos": str(k), "n": len(col)}
-
-        res = stats.two_stage(c, pfun, n1)
-        if res:
-            fails.append((f"law.marginal|{F}", f"site {'/'.join(k[0])}{list(k[1])}[{k[2]}]: draws do not follow the conditional prior given parents (PIT not uniform): {res}"))
-            break
-    # pairwise independence of the Rosenblatt coordinates
-    ks = sorted(full, key=str)
-    pairs = [(a, b) for ia, a in enumerate(ks) for b in ks[ia + 1:]][:40]
-    for a, b in pairs:
-        if np.allclose(full[a], full[b]):
-            fails.append((f"law.identical_draws|{F}", f"sites {a} and {b} have identical PIT values in all {n} traces (shared randomness)"))
-            break
-
-        def pfun(nn, stage, a=a, b=b):
-            r = pits(nn, stage)
-            p, rho = stats.spearman_p(r[1][a], r[1][b])
-            return p, {"pair": str((a, b)), "rho": rho}
-
-        res = stats.two_stage(c, pfun, n1)
-        if res:
-            fails.append((f"law.dependence|{F}", f"Rosenblatt coordinates {a} and {b} are correlated: {res}"))
-            break
+    fails, linfo = lawtest.check_law(ctx, case["prog"], ref, rargs, rkw, draw, n1, F, case["key"])
+    info.update(linfo)
     return fails
 
 
